@@ -475,6 +475,23 @@ Definition dsubscribe (ap:list string) (k:string) (m:module) (src:list string) (
       Some (aset sk (put_ep sa (ep_with ev0 (e_attrs ev0) (e_params ev0) (e_stmts ev0 ++ [SCall [] ap name None]))) m1)
   end.
 
+(* ---- `.. * <- *:` (EnterCollector, EnterCollector_call_stmt / _action_stmt / _http_stmt,
+   ExitCollector_stmts, ExitCollector): the block is an endpoint of that name; a block with entries REPLACES the
+   statements the endpoint had; every entry is one statement carrying makeAttributeArray of its [ ... ] *)
+Definition collector_name : string := ".. * <- *".
+Definition centry_stmt (c:centry) : stmt :=
+  match c with
+  | CCall tg ep es => SCall (make_attrs es) tg ep None
+  | CAction n es => SAction (make_attrs es) n
+  | CHttp v p es => SAction (make_attrs es) (meth_name v +++ " " +++ p)
+  end.
+Definition dcollector (a:app) (entries:list centry) : app :=
+  let e0 := get_ep a collector_name (E collector_name "" "" [] false [] [] None []) in
+  match entries with
+  | [] => put_ep a e0                                                    (* `.. * <- *: ...` *)
+  | _ => put_ep a (ep_with e0 (e_attrs e0) (e_params e0) (map centry_stmt entries))
+  end.
+
 Definition dmember (ap:list string) (k:string) (m:module) (mem:member) : option module :=
   match mem with
   | MAnno an => upd m k (fun a => Some (set_aattrs a (add_anno (a_attrs a) an)))
@@ -487,6 +504,7 @@ Definition dmember (ap:list string) (k:string) (m:module) (mem:member) : option 
   | MMixin x => upd m k (fun a => Some (set_mixins a (a_mixins a ++ [x])))
   | MEvent n params es body => upd m k (fun a => devent ap a n params es body)
   | MSubscribe src n es body => dsubscribe ap k m src n es body
+  | MCollector entries => upd m k (fun a => Some (dcollector a entries))
   end.
 
 Fixpoint dmembers (ap:list string) (k:string) (m:module) (ms:list member) : option module :=
@@ -547,10 +565,121 @@ Definition fix_type (m:module) (cur:string) (t:ty) : ty :=
   | _ => t
   end.
 
+(* ---- collectorPubSubCalls / applyAttributes (parse.go) *)
+Fixpoint parts_eqb (a b:list string) : bool :=
+  match a, b with
+  | [], [] => true
+  | x :: a', y :: b' => String.eqb x y && parts_eqb a' b'
+  | _, _ => false
+  end.
+(* syslutil.IsSameCall *)
+Definition same_call (tg:list string) (ep:string) (tg':list string) (ep':string) : bool := parts_eqb tg tg' && String.eqb ep ep'.
+
+(* applyAttributes(src, dst): the attributes of the collector statement are merged into EVERY call statement of the
+   same target and endpoint below dst - through if/else, loops, for each, groups and every choice of a one-of, at
+   any depth; the boolean says whether any was found (`applied = applyAttributes(src, stmt) || applied`: the
+   recursive call is always made). A statement of any other kind makes the Go code panic (None). *)
+Fixpoint apply_attrs (cat:attrs) (tg:list string) (ep:string) (s:stmt) {struct s} : option (stmt * bool) :=
+  let go := fix go (l:list stmt) (acc:bool) {struct l} : option (list stmt * bool) :=
+    match l with
+    | [] => Some ([], acc)
+    | x :: r =>
+        match apply_attrs cat tg ep x with
+        | None => None
+        | Some (x', b) => match go r (b || acc) with Some (r', b') => Some (x' :: r', b') | None => None end
+        end
+    end in
+  match s with
+  | SCond a t body => match go body false with Some (body', b) => Some (SCond a t body', b) | None => None end
+  | SGroup a t body => match go body false with Some (body', b) => Some (SGroup a t body', b) | None => None end
+  | SLoop a m t body => match go body false with Some (body', b) => Some (SLoop a m t body', b) | None => None end
+  | SForeach a t body => match go body false with Some (body', b) => Some (SForeach a t body', b) | None => None end
+  | SAlt a choices =>
+      match (fix goc (cs:list (string * list stmt)) (acc:bool) {struct cs} : option (list (string * list stmt) * bool) :=
+               match cs with
+               | [] => Some ([], acc)
+               | c :: r =>
+                   match go (snd c) acc with
+                   | None => None
+                   | Some (body', acc1) => match goc r acc1 with Some (r', b') => Some ((fst c, body') :: r', b') | None => None end
+                   end
+               end) choices false with
+      | Some (choices', b) => Some (SAlt a choices', b)
+      | None => None
+      end
+  | SCall a tg' ep' args =>
+      if same_call tg ep tg' ep' then Some (SCall (merge_attrs cat a) tg' ep' args, true) else Some (s, false)
+  | SAction _ _ | SRet _ _ => Some (s, false)
+  | SBad => None
+  end.
+(* `for _, stmt := range stmts { applied = applyAttributes(src, stmt) || applied }` *)
+Fixpoint apply_list (cat:attrs) (tg:list string) (ep:string) (l:list stmt) (acc:bool) : option (list stmt * bool) :=
+  match l with
+  | [] => Some ([], acc)
+  | x :: r =>
+      match apply_attrs cat tg ep x with
+      | None => None
+      | Some (x', b) => match apply_list cat tg ep r (b || acc) with Some (r', b') => Some (x' :: r', b') | None => None end
+      end
+  end.
+
+Definition set_stmts (e:endpoint) (ss:list stmt) : endpoint :=
+  E (e_name e) (e_long e) (e_doc e) (e_attrs e) (e_pubsub e) (e_source e) (e_params e) (e_rest e) ss.
+Definition set_eattrs (e:endpoint) (x:attrs) : endpoint :=
+  E (e_name e) (e_long e) (e_doc e) x (e_pubsub e) (e_source e) (e_params e) (e_rest e) (e_stmts e).
+
+(* the endpoints of the application other than the collector itself (Go ranges over the map: the order is
+   irrelevant, every endpoint is visited once and they do not share statements) *)
+Fixpoint collect_eps (cat:attrs) (tg:list string) (ep:string) (eps:list (string * endpoint)) (acc:bool)
+  : option (list (string * endpoint) * bool) :=
+  match eps with
+  | [] => Some ([], acc)
+  | (n, e) :: r =>
+      if String.eqb n collector_name then
+        match collect_eps cat tg ep r acc with Some (r', b) => Some ((n, e) :: r', b) | None => None end
+      else
+        match apply_list cat tg ep (e_stmts e) acc with
+        | None => None
+        | Some (ss, acc1) =>
+            match collect_eps cat tg ep r acc1 with Some (r', b) => Some ((n, set_stmts e ss) :: r', b) | None => None end
+        end
+  end.
+
+(* one statement of the collector endpoint; the boolean is false when Go logs an error (endpoint not found /
+   unused template) and goes on *)
+Definition collect_entry (a:app) (cs:stmt) : option (app * bool) :=
+  match cs with
+  | SAction cat text =>
+      match aget text (a_eps a) with
+      | None => Some (a, false)
+      | Some e => Some (set_eps a (aset text (set_eattrs e (merge_attrs cat (e_attrs e))) (a_eps a)), true)
+      end
+  | SCall cat tg ep _ =>
+      match collect_eps cat tg ep (a_eps a) false with
+      | Some (eps, b) => Some (set_eps a eps, b)
+      | None => None
+      end
+  | _ => None                                                            (* panic("unhandled type:") *)
+  end.
+Fixpoint collect_entries (a:app) (css:list stmt) : option (app * list bool) :=
+  match css with
+  | [] => Some (a, [])
+  | cs :: r =>
+      match collect_entry a cs with
+      | None => None
+      | Some (a1, b) => match collect_entries a1 r with Some (a2, bs) => Some (a2, b :: bs) | None => None end
+      end
+  end.
+Definition collect_app (a:app) : option (app * list bool) :=
+  match aget collector_name (a_eps a) with
+  | None => Some (a, [])
+  | Some ce => collect_entries a (e_stmts ce)
+  end.
+
 (* one application of the sorted loop of postProcess *)
-Definition post_app (m:module) (k:string) : module :=
+Definition post_app (m:module) (k:string) : option module :=
   match aget k m with
-  | None => m
+  | None => Some m
   | Some a =>
       (* fixParamTypeRef *)
       let eps := mapv (fun e => E (e_name e) (e_long e) (e_doc e) (e_attrs e) (e_pubsub e) (e_source e)
@@ -563,9 +692,14 @@ Definition post_app (m:module) (k:string) : module :=
                      end) (a_mixins a) (a_types a) in
       let m1 := aset k (set_types (set_eps a eps) types) m in
       (* field references of tuples / relations *)
-      match aget k m1 with
-      | Some a1 => aset k (set_types a1 (mapv (fix_type m1 k) (a_types a1))) m1
-      | None => m1
+      let m2 := match aget k m1 with
+                | Some a1 => aset k (set_types a1 (mapv (fix_type m1 k) (a_types a1))) m1
+                | None => m1
+                end in
+      (* collectorPubSubCalls *)
+      match aget k m2 with
+      | Some a2 => match collect_app a2 with Some (a3, _) => Some (aset k a3 m2) | None => None end
+      | None => Some m2
       end
   end.
 
@@ -577,7 +711,10 @@ Fixpoint insert_sorted (x:string) (l:list string) : list string :=
   end.
 Definition sort_strings (l:list string) : list string := fold_right insert_sorted [] l.
 
-Definition post (m:module) : module := fold_left post_app (sort_strings (keys m)) m.
+Fixpoint fold_opt {S X} (f:S -> X -> option S) (l:list X) (s:S) : option S :=
+  match l with [] => Some s | x :: r => match f s x with Some s' => fold_opt f r s' | None => None end end.
+
+Definition post (m:module) : option module := fold_opt post_app (sort_strings (keys m)) m.
 
 Definition denote (s:spec) : option module :=
-  match listen s with Some m => Some (post m) | None => None end.
+  match listen s with Some m => post m | None => None end.
